@@ -77,6 +77,7 @@ type DaemonScenario struct {
 	Check      *CheckPlan    `json:"check,omitempty"`
 	DKGSteps   []DKGStep     `json:"dkg_steps,omitempty"`
 	Mode       string        `json:"mode,omitempty"` // engine sub-mode chosen by the generator (fuzz, secrets, ...)
+	CloseDKGDBAtFinish int  `json:"close_dkg_db_at_finish,omitempty"` // node (position+1) whose key-generation database is closed just before it records a completed resharing (storage fault)
 }
 
 type DKGFault struct {
@@ -180,6 +181,51 @@ type daemonEngine struct {
 	lastFault time.Time // end of the last fault injected outside the script (by the resharing driver)
 	servedMax map[int]uint64
 	rwSite    string
+	stdoutMu  sync.Mutex
+	stdoutLog bytes.Buffer  // what loggers without an explicit output wrote (overlay rule R8)
+	looseWrites []looseWrite // secret-store files that were readable by others while content was written to them
+}
+
+type looseWrite struct {
+	node    string
+	path    string
+	mode    os.FileMode
+	content []byte
+}
+
+type stdoutTap struct{ e *daemonEngine }
+
+func (t stdoutTap) Write(p []byte) (int, error) {
+	t.e.stdoutMu.Lock()
+	if t.e.stdoutLog.Len() < 64<<20 {
+		t.e.stdoutLog.Write(p)
+	}
+	t.e.stdoutMu.Unlock()
+	return len(p), nil
+}
+func (t stdoutTap) Sync() error { return nil }
+
+// looseHook watches the file-level steps of the key store's writing code (overlay rule R7): content written to a
+// file that others can read at that moment is kept, and judged once all secrets of the run are known.
+func (e *daemonEngine) looseHook(op, path string, nbytes int, trunc bool) int {
+	if op != "written" {
+		return -1
+	}
+	fi, err := os.Stat(path)
+	if err != nil || fi.Mode().Perm()&0o077 == 0 {
+		return -1
+	}
+	n := e.nodeOfFolder(filepath.Dir(path))
+	if n == nil {
+		return -1
+	}
+	if b, err := os.ReadFile(path); err == nil && len(b) < 1<<20 {
+		e.stdoutMu.Lock()
+		e.looseWrites = append(e.looseWrites, looseWrite{n.addr, path, fi.Mode().Perm(), b})
+		e.stdoutMu.Unlock()
+		e.rec.Count("probe:writes_to_files_readable_by_others", 1)
+	}
+	return -1
 }
 
 // ---------------------------------------------------------------- endpoint
